@@ -30,6 +30,7 @@ class C06Spec(explore.Spec):
             alpha.rx(f"2;255;0;0;17;{v}"),
             alpha.rx(f"253;255;0;0;17;{v}"),
             alpha.rx(f"254;255;0;0;17;{v}"),
+            alpha.rx(f"255;255;0;0;17;{v}"),
             alpha.rx("1;255;3;0;0;57"),
             alpha.rx("1;255;3;0;6;0"),
             ("tick",),
@@ -37,7 +38,7 @@ class C06Spec(explore.Spec):
             ("restart",),
         ]
         if self.tier == "thorough":
-            evs += [alpha.rx(f"0;255;0;0;17;{v}"), alpha.rx(f"255;255;0;0;17;{v}"), alpha.rx("1;0;0;0;3;d"), alpha.rx("1;0;1;0;2;1")]
+            evs += [alpha.rx(f"0;255;0;0;17;{v}"), alpha.rx("1;0;0;0;3;d"), alpha.rx("1;0;1;0;2;1")]
         return evs
 
     def new_monitor(self, cfg):
@@ -70,7 +71,19 @@ def run(tier):
         if viol.replay and viol.replay.get("kind") == "history" and not explore.confirm(spec, viol):
             raise HarnessError(f"violation {viol.signature} did not reproduce from its replay data")
     part_b = run_part_b(report, tier)
+    cov_sync = dict(report.coverage)
+    sub = Report(PROP, "model_checking", tier)
+    aspec = C06AsyncSpec()
+    explore.run(aspec, sub, tier, 7 if tier == "quick" else 9, 300000, 120 if tier == "quick" else 900)
+    for viol in sub.violations.values():
+        if viol.replay and viol.replay.get("kind") == "history" and not explore.confirm(aspec, viol):
+            raise HarnessError(f"violation {viol.signature} did not reproduce from its replay data")
+        report.add(viol)
+    report.coverage.clear()
+    report.coverage.update(cov_sync)
     cov = report.coverage
+    cov["asyncio_restarts"] = {"states": sub.coverage["states"], "transitions": sub.coverage["transitions"], "completed_depth": sub.coverage["completed_depth"], "witnesses": sub.coverage["witnesses"],
+                               "rule": "asyncio gateway on the virtual loop: id requests, other traffic, timers, completion of executor job 0 or 1 (load and save run in the executor; every completion order), stop + new gateway on the same file (up to 3 lives); history variable = ids handed out"}
     cov["rule"] = RULE
     cov["evaluations"] = cov["transitions"] + part_b["schedules"]
     cov["distinct_nontrivial"] = cov["states"]
@@ -81,6 +94,8 @@ def run(tier):
 
 def replay(data):
     rep = data["replay"]
+    if rep.get("kind") == "history" and rep.get("cfg", {}).get("flavour") == "async":
+        return e1check.replay_history(C06AsyncSpec(), data)
     if rep.get("kind") == "schedule":
         sched, handed, restored = _b_run_one(rep["fmt"], list(rep["choices"]))
         print(f"ids handed out on the open connection: {handed}; nodes restored after restart: {restored}")
@@ -103,23 +118,43 @@ def _b_run_one(fmt, prefix):
     from ..common import scratch_root
     from .c16 import Conn
 
+    from mysensors.gateway_mqtt import MQTTGateway
     from mysensors.gateway_serial import SerialGateway
 
+    fmt, kind = (fmt.split("/") + ["serial"])[:2]
     S.install_library_shims()
     del S.TIMERS[:]
     d = os.path.join(scratch_root(), f"verif-pymys-{os.getpid()}", "c06b")
     shutil.rmtree(d, ignore_errors=True)
     os.makedirs(d)
     path = os.path.join(d, f"p.{fmt}")
-    gw = SerialGateway("/dev/verif", persistence=True, persistence_file=path, protocol_version="2.2")
-    gw.logic("1;255;0;0;17;2.2")
-    gw.start_persistence()
     sched = S.Scheduler(prefix, trace_files=("mysensors/task.py",), horizon=4000)
     log = sched.log
-    conn = Conn(log, "c0")
-    gw.tasks.transport.protocol.connection_made(conn)
+    if kind == "mqtt":
+        # the MQTT transport has no connection to close: a published command has left the gateway
+        def pub(topic, payload, qos, retain):
+            levels = topic.split("/")[-5:]
+            log.append(("write", "mqtt", (";".join(levels) + ";" + payload + "\n").encode()))
+
+        gw = MQTTGateway(pub, lambda *a: None, in_prefix="in", out_prefix="out", persistence=True, persistence_file=path, protocol_version="2.2")
+    else:
+        gw = SerialGateway("/dev/verif", persistence=True, persistence_file=path, protocol_version="2.2")
+    gw.logic("1;255;0;0;17;2.2")
+    gw.start_persistence()
+    if kind != "mqtt":
+        conn = Conn(log, "c0")
+        gw.tasks.transport.protocol.connection_made(conn)
     S.PUMP_TASKS[0] = gw.tasks
-    proto = gw.tasks.transport.protocol
+
+    class _P:
+        @staticmethod
+        def handle_line(line):
+            if kind == "mqtt":
+                gw.tasks.transport.recv("in/255/255/3/0/3", "", 0)
+            else:
+                gw.tasks.transport.protocol.handle_line(line)
+
+    proto = _P
 
     def body():
         def pump():
@@ -137,12 +172,15 @@ def _b_run_one(fmt, prefix):
             except Exception as exc:  # pylint: disable=broad-except
                 log.append(("stop-raised", type(exc).__name__, str(exc)[:100]))
 
-        t0 = sched.spawn(pump, "pump")
+        # the poll thread is started the way the application starts it: gateway.start()
+        if kind != "mqtt":
+            gw.tasks.transport._connect = lambda tr: None  # the link is already up (fake connection)
+        gw.start()
         t1 = sched.spawn(reader, "reader")
         t2 = sched.spawn(stopper, "stopper")
         sched.block(lambda: not t1.alive and not t2.alive, ("join",))
         gw.tasks._stop_event.set()
-        sched.block(lambda: not t0.alive, ("join-pump",))
+        sched.block(lambda: all(not t.alive for t in sched.threads[1:]), ("join-rest",))
 
     sched.run(body)
     handed = []
@@ -153,6 +191,9 @@ def _b_run_one(fmt, prefix):
                 handed.append(int(parts[5]))
     gw2 = SerialGateway("/dev/verif", persistence=True, persistence_file=path, protocol_version="2.2")
     gw2.tasks.persistence.safe_load_sensors()
+    if gw.tasks.queue:
+        # lines still queued when stop() returned are simply never processed: not an issue for this check
+        log.append(("left-in-queue", len(gw.tasks.queue)))
     restored = sorted(gw2.sensors)
     shutil.rmtree(d, ignore_errors=True)
     return sched, handed, restored
@@ -202,7 +243,7 @@ def run_part_b(report, tier):
     complete_all = True
     with ctx.Pool(NPROC) as pool:
         parts = []
-        for fmt, complete, leftover, execs, points, found, outs in pool.imap(_b_part, [(f, bound, None, deadline, 20) for f in ("json", "pickle")]):
+        for fmt, complete, leftover, execs, points, found, outs in pool.imap(_b_part, [(f, bound, None, deadline, 20) for f in ("json", "pickle", "json/mqtt")]):
             total["executions"] += execs
             total["points"] += points
             outcomes.update(outs)
@@ -225,3 +266,178 @@ def _b_add(report, found):
 
     for sig, (msg, choices, npre, fmt) in found.items():
         report.add(Violation(PROP, sig, f"{msg} ({fmt}, schedule with {npre} preemption(s))", {"kind": "schedule", "check": PROP, "fmt": fmt, "choices": choices}))
+
+
+# -- part (c): asyncio gateway, restarts with every completion order of the executor jobs (E4) ---------
+
+
+class AsyncRestartWorld:
+    """AsyncSerialGateway with persistence on the virtual loop. Events: id request, value traffic, timer,
+    completion of executor job i (load / save run in the executor), clean stop + new gateway on the same file."""
+
+    def __init__(self, cfg):
+        import os
+        import shutil
+
+        from ..common import scratch_root
+        from ..world import install_shims
+
+        install_shims()
+        self.cfg = cfg
+        self.fmt = cfg["persistence"]
+        base = os.path.join(scratch_root(), f"verif-pymys-{os.getpid()}")
+        os.makedirs(base, exist_ok=True)
+        self.dir = os.path.join(base, "c06c")
+        shutil.rmtree(self.dir, ignore_errors=True)
+        os.makedirs(self.dir)
+        self.dead = None
+        self.handed = []
+        self.lives = 0
+        self._boot()
+
+    def _boot(self):
+        import os
+
+        from mysensors.gateway_serial import AsyncSerialGateway
+
+        from ..vloop import VLoop
+
+        self.loop = VLoop()
+        self.gw = AsyncSerialGateway("/dev/verif", persistence=True, persistence_file=os.path.join(self.dir, f"p.{self.fmt}"), protocol_version="2.2")
+        self.start_task = self.loop.start(self.gw.start_persistence())
+        self.lives += 1
+
+    def enabled(self, ev):
+        if ev[0] == "exec":
+            return len(self.loop.executor_jobs) > ev[1]
+        if ev[0] == "timer":
+            return bool(self.loop.pending_timers())
+        # the application awaits start_persistence() before it starts the gateway (README): no traffic, and no
+        # stop(), before that coroutine has returned
+        if not self.start_task.done():
+            return False
+        if ev[0] == "restart":
+            return self.lives < 3
+        return True
+
+    def apply(self, ev):
+        from ..world import Obs, exc_info
+
+        obs = Obs()
+        if self.dead is not None:
+            obs.exc, obs.where = self.dead, "dead"
+            return obs
+        obs.enabled = self.enabled(ev)
+        if not obs.enabled:
+            return obs
+        try:
+            if ev[0] == "rx":
+                reply = self.loop.call(self.gw.logic, ev[1])
+                self.loop.run_ready()
+                if reply:
+                    obs.sent.append((reply, ev))
+            elif ev[0] == "exec":
+                self.loop.complete_executor(ev[1])
+            elif ev[0] == "timer":
+                self.loop.fire_next_timer()
+            elif ev[0] == "restart":
+                task = self.loop.start(self.gw.stop())
+                guard = 0
+                while self.loop.executor_jobs and guard < 6:
+                    self.loop.complete_executor(0)
+                    guard += 1
+                if not task.done():
+                    obs.exc = {"type": "Hang", "text": "stop() did not finish", "site": "task.py:stop"}
+                elif task.exception() is not None:
+                    obs.exc = exc_info(task.exception())
+                self.loop.shutdown()
+                self._boot()
+        except Exception as exc:  # pylint: disable=broad-except
+            obs.exc = exc_info(exc)
+            obs.where = "call"
+            self.dead = obs.exc
+        return obs
+
+    def key(self, extra=None):
+        import hashlib
+        import os
+
+        from .. import canon
+
+        files = []
+        for name in sorted(os.listdir(self.dir)):
+            with open(os.path.join(self.dir, name), "rb") as fh:
+                files.append((name, canon.digest(fh.read()).hex()))
+        jobs = tuple(getattr(f, "__name__", "?") for _, f, _ in self.loop.executor_jobs)
+        text = repr((canon.walk(self.gw.sensors), self.gw.tasks.persistence.need_save, tuple(files), jobs, len(self.loop.pending_timers()), self.start_task.done(), self.lives, repr(self.dead), extra))
+        return hashlib.blake2b(text.encode("utf-8", "surrogatepass"), digest_size=12).digest()
+
+    def snapshot(self):
+        return None
+
+    def close(self):
+        import shutil
+
+        try:
+            self.loop.shutdown()
+        except Exception:  # pylint: disable=broad-except
+            pass
+        shutil.rmtree(self.dir, ignore_errors=True)
+
+
+class IdHistoryMonitor:
+    """History variable: ids handed out so far (across lives). Every id response is checked against it."""
+
+    def __init__(self):
+        self.stats = collections.Counter()
+        self.handed = ()
+
+    def clone(self):
+        other = IdHistoryMonitor()
+        other.handed = self.handed
+        return other
+
+    def key(self):
+        return self.handed
+
+    def step(self, world, ev, obs):
+        from ..common import Violation, short
+
+        viols = []
+        if getattr(obs, "enabled", True) is False or obs.where == "dead":
+            return viols
+        if obs.exc is not None:
+            viols.append(Violation(PROP, f"async-restart|exception|{ev[0]}|{obs.exc['type']}@{obs.exc['site']}", f"asyncio gateway: {short(ev)} raised {obs.exc['type']}: {obs.exc['text']}", None))
+            return viols
+        for line, _ in obs.sent:
+            parts = line.strip().split(";")
+            if len(parts) == 6 and parts[2] == "3" and parts[4] == "4":
+                self.stats["async_id_responses"] += 1
+                try:
+                    pid = int(parts[5])
+                except ValueError:
+                    pid = None
+                if pid is None or not 1 <= pid <= 254:
+                    viols.append(Violation(PROP, "async-restart|id-out-of-range", f"id response carries {parts[5]!r}", None))
+                elif pid in self.handed:
+                    viols.append(Violation(PROP, "async-restart|id-handed-out-twice", f"asyncio gateway (life {world.lives}): id {pid} was handed out earlier (history {list(self.handed)})", None))
+                else:
+                    self.handed = self.handed + (pid,)
+        return viols
+
+
+class C06AsyncSpec(explore.Spec):
+    prop = PROP
+    use_snapshots = False
+
+    def configs(self, tier):
+        return [{"persistence": fmt, "flavour": "async"} for fmt in (("json",) if tier == "quick" else ("json", "pickle"))]
+
+    def make_world(self, cfg):
+        return AsyncRestartWorld(cfg)
+
+    def alphabet(self, cfg):
+        return [("exec", 0), alpha.rx("255;255;3;0;3;"), ("exec", 1), ("timer",), ("restart",), alpha.rx("1;255;3;0;0;57")]
+
+    def new_monitor(self, cfg):
+        return IdHistoryMonitor()
